@@ -11,7 +11,7 @@ STREAMS = [("C12", 3000, 120000)]
 SHARD = 5000
 RULE = ("sparse random weighted multigraphs on 1..8 nodes, weights 0..5 (many repeated weights), self-loops, parallel edges, "
         "several components, 60% undirected, encoded as Graph, StableGraph with vacancies, GraphMap, Csr, adj::List, "
-        "MatrixGraph with removed ids; min_spanning_tree on every one, min_spanning_tree_prim on the undirected ones; the node "
+        "MatrixGraph with removed ids; min_spanning_tree on every one (and again on an f64 copy whose non-forest edges weigh NaN), min_spanning_tree_prim on the undirected ones; the node "
         "stream is compared exactly with the model, the edge stream by its length and its sorted weights (the multiset of "
         "weights of a minimum spanning forest is unique; which of several equal-weight edges is taken depends on the heap's "
         "tie order, which is not modelled); the forest itself is judged by the oracle. distinct = sha1 of view; "
